@@ -715,6 +715,70 @@ fn main() {
         }
     }
 
+    // ---- (1b) v2 direct, streams that end exactly on a multiple of the segment limit (65535) and are
+    //      delivered in full-size segments: complete messages must come out, nothing may stay parked
+    if ctx.shard % 4 == 0 {
+        use pallas_network2::protocol::blockfetch::Message as Bf;
+        const SEG: usize = 65535;
+        let mk = |m: Bf| -> Sent {
+            let any = AnyMessage::BlockFetch(m);
+            Sent { bytes: encode_n2(&any), debug: inner_debug_v2(&any), label: "blockfetch".into() }
+        };
+        let overhead = mk(Bf::Block(vec![0u8; 70_000])).bytes.len() - 70_000;
+        for k in 1..=2usize {
+            for variant in 0..3 {
+                let mut msgs: Vec<Sent> = vec![];
+                let fixed: usize = match variant {
+                    0 => 0,
+                    _ => {
+                        msgs.push(mk(Bf::StartBatch));
+                        msgs[0].bytes.len() + mk(Bf::BatchDone).bytes.len()
+                    }
+                };
+                let total = SEG * k;
+                if variant == 2 {
+                    // two blocks
+                    let a = 1000 + rng.usize_below(20_000);
+                    msgs.push(mk(Bf::Block(rng.bytes(a))));
+                    let used: usize = msgs.iter().map(|m| m.bytes.len()).sum::<usize>() + mk(Bf::BatchDone).bytes.len();
+                    // the head widths depend on the body length: adjust until the stream has the wanted length
+                    let mut body = total - used - overhead;
+                    for _ in 0..4 {
+                        let l = mk(Bf::Block(vec![0u8; body])).bytes.len();
+                        if used + l == total { break; }
+                        body = (body as i64 + (total as i64 - (used + l) as i64)) as usize;
+                    }
+                    msgs.push(mk(Bf::Block(rng.bytes(body))));
+                } else {
+                    let tail = if variant == 0 { 0 } else { mk(Bf::BatchDone).bytes.len() };
+                    let head: usize = msgs.iter().map(|m| m.bytes.len()).sum();
+                    let mut body = total - fixed - overhead;
+                    for _ in 0..4 {
+                        let l = mk(Bf::Block(vec![0u8; body])).bytes.len();
+                        if head + l + tail == total { break; }
+                        body = (body as i64 + (total as i64 - (head + l + tail) as i64)) as usize;
+                    }
+                    msgs.push(mk(Bf::Block(rng.bytes(body))));
+                }
+                if variant != 0 {
+                    msgs.push(mk(Bf::BatchDone));
+                }
+                let bytes: Vec<u8> = msgs.iter().flat_map(|m| m.bytes.clone()).collect();
+                if bytes.len() != total {
+                    ctx.count("segment_limit_aligned_skipped(length-mismatch)");
+                    continue;
+                }
+                let stream = Stream { stack: "v2", proto: N2Proto::BlockFetch.name().to_string(), cmp_debug: true, msgs, bytes };
+                let cuts: Vec<usize> = (1..k).map(|i| i * SEG).collect();
+                let it = interesting_positions(&stream.bytes);
+                let segs = segments_of(&stream.bytes, &cuts);
+                let (got, left) = run_v2_direct(N2Proto::BlockFetch.channel(), &segs);
+                judge(&mut ctx, &j, &stream, "direct", "segment-limit-aligned", &cuts, &got, Some(left), &it);
+                ctx.count("segment_limit_aligned_streams");
+            }
+        }
+    }
+
     if std::env::var("PV_DEBUG").is_ok() {
         eprintln!("phase 2 at {:.1}s", ctx.elapsed_s());
     }
